@@ -1,5 +1,5 @@
 (* C03: pair / tuple (C03.ModelAgg).  Invariant: every member of both objects is alive, nothing else. *)
-From Tetl Require Import Lib.Base C03.Trace C03.Model C03.ModelAgg C03.ProofsTrace C03.ProofsGen C03.ProofsVec C03.ProofsRun.
+From Tetl Require Import Lib.Base C03.Trace C03.Model C03.ModelAgg C03.ProofsTrace C03.ProofsGen C03.ProofsVec C03.ProofsRun C03.ProofsHist.
 From Coq Require Import Arith ZifyBool.
 Local Open Scope nat_scope.
 
@@ -48,6 +48,33 @@ Proof.
   - apply IH. intros j' Hj'. apply H. right. exact Hj'.
 Qed.
 
+(* caller-side objects destroyed in reverse order of construction *)
+Lemma legal_ext_destroys_rev n : forall a,
+  (forall j, j < n -> a (Ext j) = true) ->
+  legal a (map (fun j => Destroy (Ext j)) (rev (seq 0 n)))
+        (fun l => match l with Ext j => negb (j <? n) && a l | _ => a l end).
+Proof.
+  induction n as [|n IH]; intros a H.
+  - cbn [seq rev map]. eapply legal_post; [apply legal_nil|]. intros l. destruct l; reflexivity.
+  - rewrite seq_S, rev_app_distr. cbn [Nat.add rev app map].
+    eapply legal_cons; [apply legal_destroy; apply H; lia|].
+    eapply legal_post; [apply IH|].
+    + intros j Hj. rewrite fupd_false. cbn [loc_eqb]. rewrite H by lia.
+      destruct (Nat.eqb_spec n j); [lia|reflexivity].
+    + intros l. rewrite fupd_false. destruct l as [c i|j|j]; cbn [loc_eqb]; try reflexivity.
+      destruct (Nat.eqb_spec n j), (Nat.ltb_spec j n), (Nat.ltb_spec j (S n)); cbn [negb andb]; try reflexivity; lia.
+Qed.
+
+Lemma legal_map_assign_from a c (h : nat -> how) js :
+  (forall j, In j js -> a (Slot c j) = true /\ bsrc_ok a (h j) = true) ->
+  legal a (map (fun j => Assign (Slot c j) (h j)) js) a.
+Proof.
+  induction js as [|j t IH]; intros H; cbn [map]; [apply legal_nil|].
+  eapply legal_cons.
+  - destruct (H j (or_introl eq_refl)) as [H1 H2]. apply legal_assign; assumption.
+  - apply IH. intros j' Hj'. apply H. right. exact Hj'.
+Qed.
+
 Section Agg.
 Variable fl : bool.
 Variable k : nat.
@@ -55,8 +82,11 @@ Variable k : nat.
 Definition shapeA : aliveness :=
   fun l => match l with Slot c j => (c <? 2) && (j <? k) | _ => false end.
 Definition invA (s : nat * nat) (a : aliveness) : Prop := same a shapeA.
+(* ... plus the caller-side objects e0 .. e(k-1) *)
+Definition shapeAE : aliveness :=
+  fun l => match l with Slot c j => (c <? 2) && (j <? k) | Ext j => j <? k | _ => false end.
 
-Ltac pw_unfold ::= unfold shapeA, nothing; cbn [cid negb].
+Ltac pw_unfold ::= unfold shapeA, shapeAE, nothing; cbn [cid negb].
 
 Lemma legal_agg_destroy a c : (forall j, j < k -> a (Slot c j) = true) ->
   legal a (agg_destroy k c) (fun l => a l && negb (in_range c 0 k l)).
@@ -94,9 +124,25 @@ Proof.
   - intros [] a2 H2. apply triple_ret. unfold invA. eapply same_trans; eassumption.
 Qed.
 
+(* e0 .. e(k-1) around a body that keeps the aliveness: legal, and nothing but the members is alive afterwards *)
+Lemma legal_with_ext_agg a body :
+  same a shapeA ->
+  (forall a1, same a1 shapeAE -> legal a1 body a1) ->
+  legal a (agg_with_ext k body) shapeA.
+Proof.
+  intros Ha Hb. unfold agg_with_ext.
+  eapply legal_app.
+  { eapply legal_post; [apply legal_ext_constructs; intros j _; pw|].
+    instantiate (1 := shapeAE). unfold agg_ext_values. rewrite map_length, seq_length.
+    intros l. destruct l as [c i|j|j]; unfold shapeAE; pw. }
+  eapply legal_app; [apply Hb; apply same_refl|].
+  eapply legal_post; [apply legal_ext_destroys_rev; intros j Hj; unfold shapeAE; pw|].
+  intros l. destruct l as [c i|j|j]; unfold shapeAE; pw.
+Qed.
+
 Lemma step_agg_inv s m o a : invA s a -> triple a (step_agg fl k s m o) invA.
 Proof.
-  unfold invA. intros Ha. destruct o as [t|t|t|t|t|t| |t]; unfold step_agg; cbv zeta.
+  unfold invA. intros Ha. destruct o as [t|t|t|t|t|t| |t| | |t|t]; unfold step_agg; cbv zeta.
   - (* copy assignment *)
     eapply triple_done_a; [|exact Ha]. unfold agg_assign. apply legal_map_assign.
     intros j Hj. apply in_seq in Hj. split; [destruct t; pw|cbn; destruct t; pw].
@@ -126,6 +172,31 @@ Proof.
     intros j Hj. apply in_seq in Hj. split; pw.
   - eapply triple_done_a; [|exact Ha]. unfold agg_swap. apply legal_cross_swaps; [|pw].
     intros j Hj. apply in_seq in Hj. split; destruct t; pw.
+  - (* construction from k caller-side objects, by copy *)
+    eapply triple_done_a; [apply legal_with_ext_agg; [exact Ha|]|apply same_refl].
+    intros a1 H1. eapply legal_post.
+    + eapply legal_app.
+      * apply legal_constructs; [intros i Hi; rewrite H1; pw|].
+        intros h Hh. apply in_map_iff in Hh. destruct Hh as [src [<- Hs]]. unfold exts in Hs. apply in_map_iff in Hs.
+        destruct Hs as [j [<- Hj]]. apply in_seq in Hj. cbn. rewrite H1. pw.
+      * apply legal_agg_destroy. intros j Hj. rewrite map_length. unfold exts. rewrite map_length, seq_length. pw.
+    + rewrite map_length. unfold exts. rewrite map_length, seq_length. intros l. rewrite H1. destruct l as [c i|j|j]; pw.
+  - (* ... by move *)
+    eapply triple_done_a; [apply legal_with_ext_agg; [exact Ha|]|apply same_refl].
+    intros a1 H1. eapply legal_post.
+    + eapply legal_app.
+      * apply legal_constructs; [intros i Hi; rewrite H1; pw|].
+        intros h Hh. apply in_map_iff in Hh. destruct Hh as [src [<- Hs]]. unfold exts in Hs. apply in_map_iff in Hs.
+        destruct Hs as [j [<- Hj]]. apply in_seq in Hj. rewrite bsrc_ok_mv. rewrite H1. pw.
+      * apply legal_agg_destroy. intros j Hj. rewrite map_length. unfold exts. rewrite map_length, seq_length. pw.
+    + rewrite map_length. unfold exts. rewrite map_length, seq_length. intros l. rewrite H1. destruct l as [c i|j|j]; pw.
+  - (* assignment from k caller-side objects, by copy *)
+    eapply triple_done_a; [apply legal_with_ext_agg; [exact Ha|]|apply same_refl].
+    intros a1 H1. unfold agg_assign_ext. apply legal_map_assign_from.
+    intros j Hj. apply in_seq in Hj. split; [rewrite H1; destruct t; pw|cbn; rewrite H1; pw].
+  - eapply triple_done_a; [apply legal_with_ext_agg; [exact Ha|]|apply same_refl].
+    intros a1 H1. unfold agg_assign_ext. apply legal_map_assign_from.
+    intros j Hj. apply in_seq in Hj. split; [rewrite H1; destruct t; pw|rewrite bsrc_ok_mv; rewrite H1; pw].
 Qed.
 
 Lemma agg_ini_ok : fst (brun nothing (agg_init k)) = true.
